@@ -264,15 +264,15 @@ def r4_r5(chk, prog):
         return
     chk.analysed_body(ctx.body)
     rem = [(bb, t) for (b, bb, t) in sites if b.path == allowed]
-    chk.floor("R4", len(rem), 2, "Datastore::remove sites in load_root")
-    names = sorted(ctx.const_str_of(t.args[1]) or "?" for bb, t in rem)
+    chk.floor("R4", len(rem), 1, "Datastore::remove sites in load_root")
+    names = sorted(x for bb, t in rem for x in (const_strs_of(ctx, t.args[1]) or {"?"}))
     chk.require(names == ["snapshot.json", "timestamp.json"], "R4", ctx.fn, "remove-names",
                 "load_root removes %s, expected exactly timestamp.json and snapshot.json" % names)
     # R5/R6: the condition guarding the removal
     if rem:
         rb = sorted(bb for bb, _ in rem)
         first = rb[0]
-        ctl = ctx.cfg.control_switches(first)
+        ctl = control_switches_outside_loops(ctx, first)
         chk.require(bool(ctl), "R6", ctx.fn, "removal-is-conditional",
                     "the stored timestamp/snapshot are deleted unconditionally", ctx.site(first))
         dep = False
